@@ -12,7 +12,7 @@ import (
 
 func init() {
 	register(&propCheck{id: "C10", needRoot: true, run: checkC10,
-		explanation: "Decided statically: (1) TOTAL — Importer.Add/Commit/writeNode/Close, CompressImporter.Add, deltaDecode and the node validation they call have no reachable panic site (index, slice, nil dereference of an untrusted node, unchecked type assertion), no allocation whose size is chosen by the input, and no loop, for ARBITRARY ExportNode values: every such site is an obligation discharged by a zone abstract interpretation over every path; the importer's heap invariant len(nonces) = version+1 is declared and its side condition (both fields written only by the constructor) is checked; (2) OWN/ORDER — the root marker key is written only by Commit, the imported version is published (latest-version counter, LoadVersion) only after the synchronous write returned nil; (3) ERR — the exporter cannot obtain nodes through a traversal that loses storage errors, and reports the traversal error instead of 'done'. Added in the build round: FLOW-export-fields — exporter and importer map node fields to stream fields and back identically, the importer takes left/right children from the two topmost stack entries in that order, and the compressing wrapper's version delta / key elision is undone by its mirror image; OWN-root-marker (inflight protocol) — the root batch is written only after the background node batch was awaited and found nil, and whoever receives the background result clears the in-flight slot on every path; NONNIL-decoded-key — a successfully delta-decoded key is never nil. NOT decided: round-trip fidelity (same hash, contents, future hashes), nor that 'nothing becomes visible' in the presence of the importer's early batch flush (C05 known finding)."})
+		explanation: "Decided statically: (1) TOTAL — Importer.Add/Commit/writeNode/Close, CompressImporter.Add, deltaDecode and the node validation they call have no reachable panic site (index, slice, nil dereference of an untrusted node, unchecked type assertion), no allocation whose size is chosen by the input, and no loop, for ARBITRARY ExportNode values: every such site is an obligation discharged by a zone abstract interpretation over every path; the importer's heap invariant len(nonces) = version+1 is declared and its side condition (both fields written only by the constructor) is checked; (2) OWN/ORDER — the root marker key is written only by Commit, the imported version is published (latest-version counter, LoadVersion) only after the synchronous write returned nil; (3) ERR — the exporter cannot obtain nodes through a traversal that loses storage errors, and reports the traversal error instead of 'done'. Added in the build round: FLOW-export-fields — exporter and importer map node fields to stream fields and back identically, the importer takes left/right children from the two topmost stack entries in that order, and the compressing wrapper's version delta / key elision is undone by its mirror image; OWN-root-marker (inflight protocol) — the root batch is written only after the background node batch was awaited and found nil, and whoever receives the background result clears the in-flight slot on every path; NONNIL-decoded-key — a successfully delta-decoded key is never nil. NOT decided: round-trip fidelity (same hash, contents, future hashes), nor that 'nothing becomes visible' in the presence of the importer's early batch flush (C05 known finding). Rules added in the later seeding rounds (each listed with what it decides in this file's rule table) are described in DESIGN.md §3 \"Third and fourth seeding rounds\" and Appendix C3–C5."})
 }
 
 func checkC10(c *Ctx) {
